@@ -539,6 +539,8 @@ class MP4Tags(DictProxy, Tags):
         data = read_full(fileobj, atom.length - 9)
         flags = cdata.uint_be(b"\x00" + data[:3])
         if flags & 1:
+            if len(data) < 15:
+                raise MP4MetadataError("truncated atom %r" % atom.name)
             o = cdata.ulonglong_be(data[7:15])
             if o > offset:
                 o += delta
